@@ -106,6 +106,21 @@ def retype(s):
         return {"t": "datetime", "v": s["v"][:19]}, "aware->naive"
     if t == "none":
         return {"t": "bool", "v": False}, "none->false"
+    if t in ("list", "dict", "fnref"):
+        # the same container / function reference with ONE element (or bound argument) of another, equal-comparing type
+        s2 = copy.deepcopy(s)
+        slots = ([("v", i) for i in range(len(s2["v"]))] if t == "list" else
+                 [("v", i) for i in range(len(s2["v"]))] if t == "dict" else
+                 [("pargs", i) for i in range(len(s2.get("pargs", [])))] + [("pkw", i) for i in range(len(s2.get("pkw", [])))])
+        for fld, i in slots:
+            cur = s2[fld][i] if (t == "list" or fld == "pargs") else s2[fld][i][1]
+            nv, what = retype(cur)
+            if nv is not None:
+                if t == "list" or fld == "pargs":
+                    s2[fld][i] = nv
+                else:
+                    s2[fld][i][1] = nv
+                return s2, "inside-%s:%s" % (t, what)
     return None, ""
 
 
